@@ -100,6 +100,7 @@ const unsigned char *v_subkey;  /* 32 bytes: HChaCha20 / HSalsa20 output */
 const unsigned char *v_tag;     /* 16 bytes: Poly1305 tag */
 const unsigned char *v_xb;      /* 64 bytes: result of a stream XOR over a block of <= 64 bytes (secretbox block 0) */
 unsigned long long v_gidx = ~0ULL; /* ghost offset into the input of long XOR events */
+unsigned long long v_gidx_mm = ~0ULL; /* ghost offset for the memmove stub (defaults to v_gidx) */
 
 static unsigned v_kflags(const unsigned char *k)
 {
@@ -145,9 +146,13 @@ static int v_xor(int cipher, unsigned char *c, const unsigned char *m, unsigned 
     /* precondition of the stream XOR primitives: in place (c == m) or non-overlapping */
     __CPROVER_assert(mlen == 0 || c == m || !__CPROVER_same_object(c, m) || c + mlen <= m || m + mlen <= c,
                      "assumed contract of stream xor: output equals input pointer or does not overlap it");
+#else
+    if (mlen != 0 && c != m && !((uintptr_t) c + mlen <= (uintptr_t) m || (uintptr_t) m + mlen <= (uintptr_t) c)) {
+        printf("REPLAY FAILED stream xor called with partially overlapping input and output (its documented precondition is: identical or disjoint)\n"); v_failed = 1;
+    }
 #endif
     if (mlen >= 32 && mlen <= 64 && v_ref_first && v_ref_first_len <= mlen - 32 && v_is_zero(m, 32) && v_eq(m + 32, v_ref_first, v_ref_first_len)) fl |= V_F_BLK0;
-    if (mlen > 64 && v_gidx < mlen) { e->gin = m[v_gidx]; e->has_gin = 1; }
+    if (v_gidx < mlen) { e->gin = m[v_gidx]; e->has_gin = 1; }
     if (mlen <= 64 && c == m) {                      /* in-place block: result is the k-th arbitrary-but-known block */
         unsigned kx = v_short_xor_count < 3 ? v_short_xor_count : 2;
         const unsigned char *src = v_xbs[kx] ? v_xbs[kx] : (kx == 0 ? v_xb : NULL);
@@ -254,16 +259,18 @@ void sodium_memzero(void *const pnt, const size_t len)
 #endif
 #ifdef V_STUB_MEMMOVE
 /* assumed libc contract, over-approximated: memmove(d, s, n) reads s[0..n), writes d[0..n); the bytes written are left
- * arbitrary except the one at the ghost offset v_gidx, which receives s[v_gidx] (read before anything is written).
+ * arbitrary except the first 64 and the one at the ghost offset, which receive the source bytes (read before anything is written).
  * Sound for statements about one arbitrary byte; avoids CBMC's symbolic-length memmove blow-up. */
 void *memmove(void *d, const void *s, size_t n)
 {
-    struct v_ev *e = v_push(V_OP_MEMMOVE);
-    unsigned char g = 0; int has = 0;
-    e->out = d; e->in = s; e->len = n; v_in(s, n);
-    if (v_gidx < n) { g = ((const unsigned char *) s)[v_gidx]; has = 1; }
+    unsigned char g = 0, head[64]; int has = 0; size_t i, nh = n < 64 ? n : 64;
+    unsigned long long gi = v_gidx_mm != ~0ULL ? v_gidx_mm : v_gidx;
+    v_in(s, n);                                  /* (not logged: a libc call, not a primitive) */
+    for (i = 0; i < 64; i++) if (i < nh) head[i] = ((const unsigned char *) s)[i];      /* the first 64 bytes are copied exactly */
+    if (gi < n) { g = ((const unsigned char *) s)[gi]; has = 1; }
     v_out(d, n);
-    if (has) ((unsigned char *) d)[v_gidx] = g;
+    for (i = 0; i < 64; i++) if (i < nh) ((unsigned char *) d)[i] = head[i];
+    if (has) ((unsigned char *) d)[gi] = g;
     return d;
 }
 #endif
